@@ -134,6 +134,40 @@ func storageOf(p *Prog, v ssa.Value, fn *ssa.Function, depth int, seen map[ssa.V
 		}
 		sc := x.Call.StaticCallee()
 		if sc == nil {
+			// through an interface of the repository: every implementation in the repository
+			best, why := stUnknown, ""
+			cs := p.Callees(x)
+			all := len(cs) > 0
+			for _, c := range cs {
+				if !p.InUniverse(c) || c.Blocks == nil {
+					all = false
+					continue
+				}
+				for _, b := range c.Blocks {
+					ret, ok := b.Instrs[len(b.Instrs)-1].(*ssa.Return)
+					if !ok {
+						continue
+					}
+					for _, r := range ret.Results {
+						if !isRefType(r.Type()) {
+							continue
+						}
+						cl, w := storageOf(p, r, c, depth+1, seen)
+						if cl == stPersistent {
+							return cl, w + " (returned by " + funcKey(c) + ")"
+						}
+						if cl == stFresh && best == stUnknown {
+							best, why = cl, w
+						}
+						if cl == stUnknown {
+							all = false
+						}
+					}
+				}
+			}
+			if all {
+				return best, why
+			}
 			return stUnknown, ""
 		}
 		if !p.InUniverse(sc) {
@@ -313,4 +347,65 @@ func sliceElements(p *Prog, v ssa.Value, d int, seen map[ssa.Value]bool) []ssa.V
 		return out
 	}
 	return nil
+}
+
+// A9 — what is handed to the application through Attributes is not storage the interceptor refills. A value stored
+// with Attributes.Set travels up the chain to the application, which may keep it (the feedback reports of one read
+// are compared with the next). Every reference inside the value — the value itself if it is a slice, pointer or map,
+// or the reference-typed fields of a struct built for the call — is classified with A6's storage classifier; a slice
+// that is a field of the interceptor's state, truncated and refilled per report, fires.
+
+func init() {
+	registerEngine("A9", []string{"A9"}, runEngineA9)
+}
+
+func runEngineA9(p *Prog, o *obls) {
+	n := 0
+	for _, fn := range p.Funcs {
+		k := 0
+		instrsOf(fn, func(in ssa.Instruction) {
+			call, ok := in.(*ssa.Call)
+			if !ok || len(call.Call.Args) < 3 {
+				return
+			}
+			sc := call.Call.StaticCallee()
+			if sc == nil || sc.Name() != "Set" || sc.Signature.Recv() == nil {
+				return
+			}
+			if tk := typeKey(sc.Signature.Recv().Type()); tk != "interceptor.Attributes" && tk != "fixtures/fx.fxAttrs" {
+				return
+			}
+			n++
+			k++
+			key := fmt.Sprintf("%s:attr-set", funcKey(fn))
+			if k > 1 {
+				key = fmt.Sprintf("%s#%d", key, k)
+			}
+			val := stripIface(call.Call.Args[2])
+			var refs []ssa.Value
+			if isRefType(val.Type()) {
+				refs = append(refs, val)
+			} else if u, ok := p.origin(val).(*ssa.UnOp); ok && u.Op == token.MUL {
+				if al, ok := cellAddr(u.X).(*ssa.Alloc); ok {
+					for _, st := range p.storesInto(al) {
+						if st.Addr != ssa.Value(al) && isRefType(st.Val.Type()) {
+							refs = append(refs, st.Val)
+						}
+					}
+				}
+			}
+			var bad []string
+			for _, r := range refs {
+				if c, why := storageOf(p, r, fn, 0, map[ssa.Value]bool{}); c == stPersistent {
+					bad = append(bad, fmt.Sprintf("%s is %s", shortExpr(p, r), why))
+				}
+			}
+			if len(bad) > 0 {
+				o.bad("A9", key, p.instrPos(call), "the value stored into the attributes at "+p.instrPos(call)+" refers to memory the interceptor keeps and refills: "+strings.Join(dedupe(bad), "; ")+" — a consumer that still holds the value of an earlier read sees it change")
+			} else {
+				o.ok("A9", key, p.instrPos(call), fmt.Sprintf("%d reference(s) in the stored value, none recognisably longer-lived than the call", len(refs)))
+			}
+		})
+	}
+	o.ok("A9", "inspected", "-", fmt.Sprintf("%d Attributes.Set call(s)", n))
 }
